@@ -437,6 +437,20 @@ def resOps (op : String) (j : Json) : Except String (Option Json) := do
           | .ok (argv, cwd) => Json.mkObj [("argv", jToks argv), ("cwd", jOptTok cwd)]
           | .error e => Json.mkObj [("error", Json.str e)])])
     pure (some (Json.mkObj [("ex_after", jRD ex'), ("calls", Json.arr outs.toArray)]))
+  | "res_file_dispatch" =>
+    -- file mode: executor-level dictionary as given to FileExecutor, the per-call dictionaries of a sequence of tasks
+    let ex := Res.fileDefaults (← parseRD (← j.getObjVal? "ex"))
+    let pcs ← (← j.getObjValAs? (Array Json) "pcs").toList.mapM parseRD
+    let py := tok (← getStr j "python")
+    let serial := tok (← getStr j "serial")
+    let parallel := tok (← getStr j "parallel")
+    let file := tok (← getStr j "file")
+    let cacheDir := tok (← getStr j "cache_directory")
+    let (ex', pcs', effs) := Res.fileDispatchAll ex pcs
+    let outs := effs.map (fun e =>
+      let (argv, cwd) := Res.fileLaunch e py serial parallel file cacheDir
+      Json.mkObj [("rd", jRD e), ("argv", jToks argv), ("cwd", jOptTok cwd)])
+    pure (some (Json.mkObj [("ex_after", jRD ex'), ("pcs_after", Json.arr (pcs'.map jRD).toArray), ("calls", Json.arr outs.toArray)]))
   | _ => pure none
 
 /-! ### Key / Cache -/
